@@ -11,12 +11,24 @@ Docs == <<
   << AttrI("n", "call", <<"c1", "c2">>, "c3"), AttrI("h", "here2", <<>>, ""), BlockI("blk", <<>>, <<AttrI("h", "here3", <<"c2">>, "")>>, <<>>) >>,
   << BlockI("blk", <<>>, <<>>, <<>>), AttrI("a", "cond", <<>>, ""), NoteI("c3"), AttrI("b", "trav", <<>>, "") >>,
   << NoteI("c2"), NoteI("c1"), BlockI("srv", <<"y">>, <<NoteI("c1"), AttrI("n", "list", <<>>, "c1"), NoteI("c2")>>, <<"c1", "c1">>) >>,
-  << AttrI("a", "idxt", <<>>, ""), BlockI("srv", <<>>, <<AttrI("b", "one", <<>>, "")>>, <<>>), BlockI("blk", <<"x">>, <<>>, <<>>), AttrI("n", "idxn", <<>>, "c2") >> >>
+  << AttrI("a", "idxt", <<>>, ""), BlockI("srv", <<>>, <<AttrI("b", "one", <<>>, "")>>, <<>>), BlockI("blk", <<"x">>, <<>>, <<>>), AttrI("n", "idxn", <<>>, "c2") >>,
+  << AttrI("a", "one", <<>>, "") >>,                 \* one attribute and nothing else
+  << BlockI("blk", <<>>, <<>>, <<>>) >> >>           \* one empty block and nothing else
+Big == 7      \* the last of the files with several items
 (* which file is laid out how: every file plainly; the last one (index keys, an empty and a one-attribute block) in every layout; some others in one more *)
-DocLays == {<<i, "plain">> : i \in 1..Len(Docs)} \cup {<<Len(Docs), lay>> : lay \in Layouts}
+DocLays == {<<i, "plain">> : i \in 1..Len(Docs)} \cup {<<Big, lay>> : lay \in Layouts}
            \cup {<<1, "midnote">>, <<1, "noeol">>, <<2, "bom">>, <<4, "crlf">>, <<5, "oneline">>, <<6, "midnote">>, <<5, "noeol">>, <<2, "noeol">>}
 Init == \E dl \in DocLays : doc = Docs[dl[1]] /\ hist = <<[op |-> "Load", doc |-> Docs[dl[1]], i |-> dl[1], lay |-> dl[2]]>>
 Spec == Init /\ [][Next]_vars
+(* histories on the smallest files (nothing, one attribute, one block): the item lists become empty and are filled again; a small alphabet, so that
+   every history of several edits is gone through *)
+Small == {3, 8, 9}
+SmallInit == \E i \in Small : doc = Docs[i] /\ hist = <<[op |-> "Load", doc |-> Docs[i], i |-> i, lay |-> "plain"]>>
+SmallNext == \/ \E n \in {"a", "b"} : SetAttr(0, n, "v7") \/ RemoveAttr(0, n)
+             \/ \E t \in {"blk", "srv"} : AppendBlock(0, t, <<>>)
+             \/ \E j \in 1..2 : RemoveBlock(0, j)
+             \/ Clear(0)
+SmallSpec == SmallInit /\ [][SmallNext]_vars
 Emit == (Len(hist) = MaxEdits) => PrintT(<<"BEHAVIOUR", ToJson(hist)>>)
 view == <<doc, hist>>
 =============================================================================
